@@ -108,7 +108,7 @@ Proof. exact pct_text_decodes_l. Qed.
 Print Assumptions pct_text_decodes.
 
 (* ====================================================================== (3) serialize / unserialize *)
-(* "the matching decoder inverts it exactly": for every value built from null, bool, 64-bit int,
+(* "the matching decoder inverts it exactly": for every value built from null, bool, 64-bit int, float,
    byte string (any bytes: quotes, semicolons, NUL), list and string-keyed map, nested arbitrarily,
    unserialize(serialize(v)) is v — as a PHP value: an empty map comes back as the empty list *)
 Theorem unserialize_serialize : forall v, serializable v = true ->
@@ -136,23 +136,20 @@ Print Assumptions scanner_moves_forward.
 
 (* "accept exactly the well-formed inputs": the strict parser accepts a byte string with a value iff
    the string is a text of the grammar ser_text (SerSpec.v) denoting that value — soundness and
-   completeness; and unserialize as a whole accepts exactly those texts after trimming white space *)
+   completeness; and unserialize as a whole accepts exactly those texts *)
 Theorem unserialize_strict_accepts_iff : forall s v, parse_strict s = POk v <-> ser_text s v.
 Proof. exact strict_accepts_iff_l. Qed.
 Print Assumptions unserialize_strict_accepts_iff.
 
-Theorem unserialize_accepts_iff : forall s v, unserialize s = POk v <-> ser_text (trim_space s) v.
+Theorem unserialize_accepts_iff : forall s v, unserialize s = POk v <-> ser_text s v.
 Proof. exact unserialize_accepts_iff_l. Qed.
 Print Assumptions unserialize_accepts_iff.
 
-(* REFUTED for this codec (witnesses in Examples.v, known findings demonstrated on the implementation):
-   - "every encoder emits output ...": serialize returns false for floats
-     (serialize_float_refuted; ser:enc:unsupported:float);
-   - "accept exactly the well-formed inputs": the wrapper trims surrounding white space first
-     (unserialize_whitespace_refuted; unser:accept:surrounding-whitespace) — unserialize_accepts_iff
-     states exactly that; the grammar itself admits array keys of any scalar kind (PHP: int or
-     string only), see Examples.ex_lenient_key.
-   Not modelled: objects (O:), the legacy __origami_ wrappers (PUnmodelled outcome). *)
+(* A float is identified with its text (strconv's float <-> shortest text is assumed); the grammar
+   admits array keys of any scalar kind (PHP: int or string only), see Examples.ex_lenient_key.
+   Not modelled: class instances (serialize writes O:..., unserialize has no O: case: known finding
+   ser:roundtrip:object), the legacy __origami_ wrappers (PUnmodelled outcome), ArrayValue slots
+   that carry keys (their round trip is checked on the implementation by the driver). *)
 
 (* ====================================================================== (4) JSON value <-> tree *)
 (* The reference reading (JsonSpec: what the format's own rules give) inverts the reference
